@@ -78,6 +78,7 @@ def run_tree(case):
     c = lw.Circuit(prog["n"])
     labels = set()
     add_with_anc = False
+    child_cache = {}
     for op in prog["ops"]:
         if op[0] == "add":
             im = list(c._internal_modes)
@@ -91,7 +92,8 @@ def run_tree(case):
                     labels.add("ungrouped-add-with-ancilla")
         if op[0] in ("bs", "ps") and c._internal_modes and op[-1 if op[0] == "ps" else 5] > 0:
             labels.add("lossy-shorthand-after-ancilla")
-        c = call(f"apply {op[0]}", apply_real, c, op, None, np.int64 if case.get("np_modes") else None)
+        c = call(f"apply {op[0]}", apply_real, c, op, None, np.int64 if case.get("np_modes") else None, None,
+                 child_cache)
     w = build_model(prog)
     if case.get("np_modes"):
         labels.add("numpy-int64-modes")
